@@ -190,12 +190,14 @@ func applyOp(f *slicez.FlexSlice[int], m *[]int, next *int, o fop, st *fstats) (
 		if o.kind == opPrependSelf {
 			name = "Prepend(aliasing argument)"
 		}
-		part := clone((*m)[o.a:o.b])
+		// read through the array, not the model: positions at or behind len hold whatever is there
+		part := clone(f.Values[:cap(f.Values)][o.a:o.b])
 		_, stack, p := common.Catch(func() {
+			arg := f.Values[:cap(f.Values)][o.a:o.b]
 			if o.kind == opAppendSelf {
-				f.Append(f.Values[o.a:o.b]...)
+				f.Append(arg...)
 			} else {
-				f.Prepend(f.Values[o.a:o.b]...)
+				f.Prepend(arg...)
 			}
 		})
 		if p {
@@ -349,7 +351,7 @@ type fstate struct {
 	depth  int
 }
 
-func alphabet(n, sizeCap int) []fop {
+func alphabet(n, cp, sizeCap int) []fop {
 	var ops []fop
 	for k := 0; k <= 3; k++ {
 		if n+k <= sizeCap {
@@ -366,6 +368,13 @@ func alphabet(n, sizeCap int) []fop {
 			if n+k <= sizeCap {
 				ops = append(ops, fop{kind: opAppend, a: k, b: sp}, fop{kind: opPrepend, a: k, b: sp})
 			}
+		}
+	}
+	// the argument lies in the receiver's own array BEHIND its length (what a SubSlice of a longer
+	// FlexSlice leaves there): legal to re-slice, and about to be overwritten by an in-place shift
+	for k := 1; k <= 2; k++ {
+		if n >= 1 && cp-n >= k && n+k <= sizeCap {
+			ops = append(ops, fop{kind: opPrependSelf, a: n, b: n + k}, fop{kind: opAppendSelf, a: n, b: n + k})
 		}
 	}
 	for a := 0; a < n; a++ { // the argument is a piece of the receiver itself
@@ -501,7 +510,7 @@ func (s *searcher) search(label string, roots []rootT) searchResult {
 				r.Violation("FlexSlice."+kind, fmt.Sprintf("after %d operations: %s", len(full), what),
 					map[string]any{"root": root.String(), "operations": names, "size_cap": sizeCap}, goTestFor(root, full))
 			}
-			for _, o := range alphabet(states(si).ln, sizeCap) {
+			for _, o := range alphabet(states(si).ln, states(si).cp, sizeCap) {
 				f, m, next := buildRoot(root)
 				diverged := false
 				for _, p := range path {
